@@ -78,7 +78,7 @@ struct RoundTrip {
 impl RoundTrip {
     fn new(tier: Tier) -> Self {
         let sets = filesets(tier);
-        let threads = tier.pick(vec![Some(1), Some(2), Some(8)], vec![Some(1), Some(2), Some(8), None]);
+        let threads = tier.pick(vec![Some(1), Some(8)], vec![Some(1), Some(2), Some(8), None]);
         // simplest first: selection, skip, listfile, compression, version, file set
         let radices = vec![3, 2, 2, 4, 4, sets.len() as u64];
         RoundTrip { sets, threads, radices }
@@ -382,7 +382,7 @@ fn main() {
          A case is non-trivial when the tool was actually started on the prepared input and ended with an exit status; distinct by (template, seed, damage) resp. by the axis tuple.",
         nsets = filesets(tier).len(),
         more_sets = tier.pick("", " / forty files / sector-boundary sizes + 300 KiB incompressible / case, dots and non-ASCII names / backslash in name"),
-        threads = tier.pick("{1,2,8}", "{1,2,8,default}"),
+        threads = tier.pick("{1,8}", "{1,2,8,default}"),
         ntpl = subcmd::templates().len(),
         dmg = subcmd::damage_names(tier).join(", "),
     );
@@ -395,7 +395,7 @@ fn main() {
     c.extra_cov.insert(
         "axes".into(),
         json!({
-            "roundtrip": {"file_sets": sets.len(), "versions": 4, "compressions": 4, "listfile": 2, "selections": 3, "skip_errors": 2, "threads_inner": tier.pick(3, 4), "preserve_paths_inner": 2},
+            "roundtrip": {"file_sets": sets.len(), "versions": 4, "compressions": 4, "listfile": 2, "selections": 3, "skip_errors": 2, "threads_inner": tier.pick(2, 4), "preserve_paths_inner": 2},
             "subcmd": subcmd::axes(tier),
         }),
     );
